@@ -16,6 +16,36 @@ CONFIGS = {
               "rand_xoshiro/serde,rand_isaac/serde,rand_xorshift/serde"],
     "jitter-std": ["-p", "rand_jitter", "--features", "rand_jitter/std,rand_jitter/log"],
 }
+def crate_features(repo, crate):
+    """feature names declared in the crate's Cargo.toml (the [features] table and optional dependencies are not distinguished
+    further: only the table's keys)"""
+    import re
+    try:
+        txt = open(os.path.join(repo, crate, "Cargo.toml")).read()
+    except OSError:
+        return []
+    m = re.search(r"^\[features\]\s*$(.*?)(^\[|\Z)", txt, re.M | re.S)
+    if not m:
+        return []
+    return [k for k in re.findall(r"^([A-Za-z0-9_\-]+)\s*=", m.group(1), re.M) if k != "default"]
+
+
+def config_args(config, repo=REPO):
+    """cargo arguments of a configuration.  The non-default configurations switch on EVERY feature the crates declare today
+    (serde for the three crates that have it; std, log and whatever is added later for rand_jitter), so that code behind a new
+    feature is analysed too"""
+    if config == "jitter-std":
+        feats = crate_features(repo, "rand_jitter") or ["std", "log"]
+        return ["-p", "rand_jitter", "--features", ",".join("rand_jitter/" + f for f in feats)]
+    if config == "serde":
+        args, feats = [], []
+        for c in ("rand_xoshiro", "rand_isaac", "rand_xorshift"):
+            args += ["-p", c]
+            feats += ["%s/%s" % (c, f) for f in (crate_features(repo, c) or ["serde"])]
+        return args + ["--features", ",".join(feats)]
+    return CONFIGS[config]
+
+
 PROFILES = {
     "dev": "-C overflow-checks=on -C debug-assertions=on",
     "rel": "-C overflow-checks=off -C debug-assertions=off",
@@ -46,6 +76,9 @@ def sysroot():
 def extract(config="default", profile="dev", repo=REPO, quiet=True):
     """-> directory containing <crate>.json for this tree/config/profile"""
     th = tree_hash(repo)
+    if config != "default":
+        # the feature list of a non-default configuration is read from the tree: part of the key
+        th = hashlib.sha256((th + " ".join(config_args(config, repo))).encode()).hexdigest()[:24]
     out = os.path.join(CACHE, "%s-%s-%s" % (th, config, profile))
     stamp = os.path.join(out, "OK")
     if os.path.exists(stamp):
@@ -66,7 +99,7 @@ def extract(config="default", profile="dev", repo=REPO, quiet=True):
     env.pop("RUSTC_WRAPPER", None)
     t0 = time.time()
     try:
-        p = subprocess.run(["cargo", "+nightly", "check", "--offline"] + CONFIGS[config], cwd=repo, env=env,
+        p = subprocess.run(["cargo", "+nightly", "check", "--offline"] + config_args(config, repo), cwd=repo, env=env,
                            stdout=subprocess.PIPE, stderr=subprocess.STDOUT, text=True)
     finally:
         shutil.rmtree(td, ignore_errors=True)
